@@ -59,6 +59,17 @@ func init() {
 		},
 	})
 	core.Register(&core.Property{
+		ID:         "C14",
+		Decided:    "Decides that the per-type program caches are indexed only after both address bounds were tested, that lookup, compile and store use the same key, that the race and non-race variants differ only by lock statements, and that the caches are sized with the same shift they are indexed with; it does not decide that the index is injective for the linker's actual layout.",
+		NotCovered: "injectivity of (addr-base)>>shift for the real type-descriptor layout (AnalyzeTypeAddr infers the alignment from a running minimum at run time).",
+		Rules: []*core.Rule{
+			{ID: "C14.R1", Title: "every index into cachedOpcodeSets/cachedDecoder is dominated by returning tests `addr > typeAddr.MaxTypeAddr` and `addr < typeAddr.BaseTypeAddr` on the address the index is computed from", Covers: "types outside the analysed address range (run-time created, PIE) never index the cache", Configs: []string{"default", "race"}, Min: 4, Run: c14r1},
+			{ID: "C14.R2", Title: "lookup and store use one index variable assigned once; the stored value is the result of a compile call on the function's own type argument; the slow-path map is keyed by the full address", Covers: "the program applied to a value is the one compiled for its type", Configs: []string{"default", "race"}, Min: 8, Run: c14r2},
+			{ID: "C14.R3", Title: "CompileToGetCodeSet / CompileToGetDecoder: race and norace variants have the same normal form once Lock/Unlock statements are dropped; encoder and decoder guards compare the same bounds", Covers: "both build configurations implement the same cache", Min: 3, Run: c14r3},
+			{ID: "C14.R4", Title: "caches are allocated with AddrRange>>AddrShift+1 entries and indexed with >>AddrShift", Covers: "every in-range address maps to an allocated slot", Min: 4, Run: c14r4},
+		},
+	})
+	core.Register(&core.Property{
 		ID:         "C16",
 		Decided:    "Decides that the decimal accumulators of parseInt/parseUint cannot overflow silently, that the post-parse range switch rejects exactly the values outside every destination kind narrower than 64 bits (per build configuration), that a minus sign needs a digit in both decoding modes, and that kind, constructor, store width and bit-size tables agree in decoder and encoder (plus the digit tables of C04.R2); it does not decide the printed or parsed value.",
 		NotCovered: "the printer's arithmetic for every value, leading zeros after a minus sign in stream mode, fraction/exponent rejection (decided by the byte after the token, see C05).",
